@@ -1,7 +1,7 @@
 """C06 - a ResendRequest is answered completely, in order and without side effects.
 
 Theorems (Props/C06.v) are about coq/theories/Fix/Resend.v, a message-level model of
-AsyncFIXConnection._process_resend and its call site in _process_message (repairs D12, R3c, R5a, R5b) with what they call (Journaler.recover_messages / set_seq_num /
+AsyncFIXConnection._process_resend and its call site in _process_message (repairs D12, R3c, R5a, R5b, R6a, R6b) with what they call (Journaler.recover_messages / set_seq_num /
 persist_msg, send_msg, the codec's sequence-number selection).  This harness ties the model to the
 code: a real AsyncFIXDummyServer over a real SQLite Journaler (no sockets: fake writer, dummy
 reader) sends a journal of messages, optionally answers earlier ResendRequests and
@@ -20,7 +20,8 @@ slot k (1-based) describes outbound number k:  <type><flags>
         l  the number was already covered by an earlier, complete ResendRequest
            (maximal runs of l-slots are re-requested right after their last message was sent;
            since the D12 repair this leaves the journal as it was)
-        p  (application types) the message was sent with PossDupFlag=N in its body
+        p  (type D) the message was sent with PossDupFlag=N in the middle of its body
+        q  (type D) the message was sent with OrigSendingTime as the first tag of its body
         h  the row is missing from the journal (deleted after everything else)
 state AWAITING: the connection itself awaits a resend (a too-high inbound message made it send a
 ResendRequest, which occupies one more outbound number after the slots).
@@ -40,7 +41,7 @@ META = {
     "tables": ["GenEnums", "GenConst"],
     "files": ["asyncfix/connection.py", "asyncfix/journaler.py", "asyncfix/codec.py", "asyncfix/session.py"],
     "rule": "exhaustive journals up to length 2 over the slot alphabet, random journals up to length 8 (thorough 12) with "
-            "slots in {3 application types, 6 session types, declined, hole, already resent once, sent with tag 43} x ALL (Begin, End) "
+            "slots in {3 application types, 6 session types, declined, hole, already resent once, sent with tag 43 / 122} x ALL (Begin, End) "
             "in [-1, len+2]^2 incl. End=0 x {ACTIVE, RESENDREQ_AWAITING}, plus a malformed stream (missing / non-numeric / "
             "lenient / 64-bit-overflowing BeginSeqNo, EndSeqNo); a case is one (journal, request, start state); non-trivial "
             "when the request is well formed with Begin < next_num_out (something is replayed or gap-filled); distinct by "
@@ -292,6 +293,8 @@ async def build(env, slots, state):
             pass
         elif typ == "D" and "p" in flags:
             await conn.send_msg(FIXMessage(FMsg.NEWORDERSINGLE, {11: "c%d" % k, 43: "N", 55: "SYM"}))
+        elif typ == "D" and "q" in flags:
+            await conn.send_msg(FIXMessage(FMsg.NEWORDERSINGLE, {122: "X%d" % k, 11: "c%d" % k}))
         elif typ == "D":
             await conn.send_msg(FIXMessage(FMsg.NEWORDERSINGLE, {11: "c%d" % k, 55: "SYM", 54: 1, 38: 10 * k}))
         elif typ == "J":
@@ -473,6 +476,19 @@ def reference_reply(pre, b, e, declined):
     return out, (b, hi)
 
 
+def upsert(fields, tag, value):
+    out, done = [], False
+    for t, v in fields:
+        if t == tag and not done:
+            out.append([tag, value])
+            done = True
+        else:
+            out.append([t, v])
+    if not done:
+        out.append([tag, value])
+    return out
+
+
 def check_property(case, obs):
     """List of breaches of the property text by the observed behaviour (empty: property holds)."""
     pre, post = obs["pre"], obs["post"]
@@ -494,11 +510,10 @@ def check_property(case, obs):
                 bad.append("frame %d does not decode" % w[0])
             if x[0] == "R":
                 orig = J[x[1]]
-                orig_f = dict(map(tuple, orig[3]))
-                orig_time = orig_f.get("122", orig[2])
-                body = [p for p in w[3] if p[0] not in ("43", "122")]
-                orig_body = [p for p in orig[3] if p[0] not in ("43", "122")]
-                if w[0] != x[1] or w[1] != orig[1] or f.get("43") != "Y" or f.get("122") != orig_time or body != orig_body:
+                # "otherwise identical body": the journaled body with PossDupFlag = Y and OrigSendingTime = the
+                # journaled SendingTime; a tag the message already carried keeps its position, a new one is appended
+                want_body = upsert(upsert(orig[3], "43", "Y"), "122", orig[2])
+                if w[0] != x[1] or w[1] != orig[1] or w[3] != want_body:
                     bad.append("frame for %d is not the retransmission of the journaled message: %r" % (x[1], w[:4]))
                 if w[1] in SESSION_TYPES:
                     bad.append("session-level message %d retransmitted" % w[0])
@@ -530,22 +545,8 @@ def check_property(case, obs):
 # ---- known-finding class predicates: decidable from the request, the filter and the pre-state journal
 
 def classify(case, obs):
-    """Names of the known-finding classes whose predicate accepts this case (Coq: in_class k_* in ResendL.v)."""
-    pre = obs["pre"]
-    b, e = req_int(case["begin"]), req_int(case["end"])
-    nout = pre["nout"]
-    out = []
-    if b is None or e is None:
-        return []                 # unreadable: nothing is sent, everything restored - the right outcome
-    b = max(b, 1)                 # the number the handler uses
-    if e > INT64_MAX and b < nout:
-        out.append("C06-end-beyond-64-bits")
-    hi = INT64_MAX if e == 0 else e
-    declined = set(obs["declined"])
-    replayed = [r for r in pre["rows"] if b <= r[0] <= hi and r[1] not in SESSION_TYPES and r[0] not in declined]
-    if any(t in ("43", "122") for r in replayed for t, _ in r[3]):
-        out.append("C06-row-carries-possdup-tags")
-    return out
+    """Known-finding classes accepting this case: none is left for C06."""
+    return []
 
 
 def in_theorem_domain(case, obs):
@@ -563,7 +564,7 @@ def slot_alphabet(first=False):
     out = []
     for t in APP_TYPES:
         out += [t, t + "d", t + "l", t + "h", t + "dl"]
-    out += ["Dp", "Dpd"]
+    out += ["Dp", "Dpd", "Dq"]
     for t in SESSION_TYPES:
         out += [t, t + "l", t + "h"]
     return out
@@ -598,7 +599,7 @@ SHOWCASE = [
     ["A", "D", "Dh", "D", "D"],                                    # hole between application rows (D21)
     ["A", "D", "D", "D", "Dh", "Dh"],                              # missing suffix
     ["A", "0l", "0l", "D"],                                        # gap-filled once already, then an application message
-    ["A", "D", "Dp", "0", "D"],                                    # an application message journaled with tag 43 in its body
+    ["A", "D", "Dp", "0", "Dq", "D"],                              # application messages journaled with tag 43 / 122 in their body
 ]
 
 MALFORMED_VALUES = [None, "", "x", "1x", " 2", "+2", "2_0", "0x2", "2.0", "-", "9223372036854775807", "9223372036854775808",
@@ -716,10 +717,7 @@ def evaluate(ctx, cases, use_model=True):
 
 
 # the witnesses of the *_refuted theorems of Props/C06.v, in the harness's case syntax
-WITNESSES = {
-    "C06_end_beyond_64_refuted": ({"slots": ["A", "D"], "begin": "2", "end": "9223372036854775808", "state": "ACTIVE"}, "C06-end-beyond-64-bits"),
-    "C06_possdup_tag_refuted": ({"slots": ["A", "Dp"], "begin": "2", "end": "0", "state": "ACTIVE"}, "C06-row-carries-possdup-tags"),
-}
+WITNESSES = {}     # no refuted theorem is left for C06
 # positive witnesses: must satisfy the property on the implementation
 POSITIVE = {
     "C06_second_request_ok": {"slots": ["A", "Dl", "Dl"], "begin": "2", "end": "0", "state": "ACTIVE"},
@@ -730,6 +728,9 @@ POSITIVE = {
     "C06_bounded_end_ok/1": {"slots": ["A", "D", "D", "D"], "begin": "2", "end": "2", "state": "ACTIVE"},
     "C06_bounded_end_ok/2": {"slots": ["A", "D", "0", "D"], "begin": "2", "end": "3", "state": "ACTIVE"},
     "C06_hole_ok": {"slots": ["A", "D", "Dh", "D", "D"], "begin": "2", "end": "0", "state": "ACTIVE"},
+    "C06_possdup_tags_ok/43": {"slots": ["A", "Dp"], "begin": "2", "end": "0", "state": "ACTIVE"},
+    "C06_possdup_tags_ok/122": {"slots": ["A", "Dq"], "begin": "2", "end": "0", "state": "ACTIVE"},
+    "C06_end_beyond_64_ok": {"slots": ["A", "D"], "begin": "2", "end": "9223372036854775808", "state": "ACTIVE"},
     "C06_holes_and_bounded_end_ok/1": {"slots": ["A", "D", "Dh", "Dh", "D", "0", "Dh", "Dh", "Dd", "D", "Dh", "Dh"], "begin": "2", "end": "10", "state": "ACTIVE"},
     "C06_holes_and_bounded_end_ok/2": {"slots": ["A", "D", "Dh", "Dh", "D", "0", "Dh", "Dh", "Dd", "D", "Dh", "Dh"], "begin": "3", "end": "8", "state": "ACTIVE"},
 }
